@@ -1,0 +1,101 @@
+//! Verification hooks. Compiled only with `--cfg rustrtc_verif`; with the flag
+//! off this module does not exist and no call site is compiled.
+//!
+//! * `emit` appends one event (a JSON object) to a process-wide log. The
+//!   sequence number is assigned under the log's lock, so the log is a total
+//!   order consistent with every lock under which `emit` is called.
+//! * `sched` is a cooperative scheduling point: a controller installed by the
+//!   test harness may park the calling thread there.
+//! * `override_*` lets the harness shorten timers / pin random choices.
+
+use parking_lot::{Mutex, RwLock};
+use serde_json::{Map, Value};
+use std::collections::HashMap;
+use std::sync::Arc;
+use std::sync::atomic::{AtomicBool, Ordering};
+
+static ENABLED: AtomicBool = AtomicBool::new(false);
+static LOG: Mutex<Vec<Value>> = Mutex::new(Vec::new());
+static SEQ: Mutex<u64> = Mutex::new(0);
+static SCHED: RwLock<Option<Arc<dyn Fn(&'static str) + Send + Sync>>> = RwLock::new(None);
+static OVERRIDES: RwLock<Option<HashMap<&'static str, i64>>> = RwLock::new(None);
+
+/// Turn event collection on or off (off by default).
+pub fn set_enabled(on: bool) {
+    ENABLED.store(on, Ordering::SeqCst);
+}
+
+#[inline]
+pub fn enabled() -> bool {
+    ENABLED.load(Ordering::Relaxed)
+}
+
+/// Append an event. `fields` must be a JSON object; `seq`, `comp`, `inst`, `ev`
+/// are added to it.
+pub fn emit(comp: &'static str, inst: &str, ev: &'static str, fields: Value) {
+    if !enabled() {
+        return;
+    }
+    let mut m = match fields {
+        Value::Object(m) => m,
+        _ => Map::new(),
+    };
+    m.insert("comp".into(), Value::from(comp));
+    m.insert("inst".into(), Value::from(inst));
+    m.insert("ev".into(), Value::from(ev));
+    let mut log = LOG.lock();
+    let mut seq = SEQ.lock();
+    *seq += 1;
+    m.insert("seq".into(), Value::from(*seq));
+    log.push(Value::Object(m));
+}
+
+/// Remove and return everything logged so far.
+pub fn take_events() -> Vec<Value> {
+    std::mem::take(&mut *LOG.lock())
+}
+
+/// Number of events logged so far (monotone; used for quiescence detection).
+pub fn event_count() -> u64 {
+    *SEQ.lock()
+}
+
+pub fn set_scheduler(f: Option<Arc<dyn Fn(&'static str) + Send + Sync>>) {
+    *SCHED.write() = f;
+}
+
+/// Cooperative scheduling point. No-op unless a scheduler is installed.
+#[inline]
+pub fn sched(label: &'static str) {
+    let f = SCHED.read().clone();
+    if let Some(f) = f {
+        f(label);
+    }
+}
+
+pub fn set_override(name: &'static str, v: Option<i64>) {
+    let mut g = OVERRIDES.write();
+    let m = g.get_or_insert_with(HashMap::new);
+    match v {
+        Some(v) => {
+            m.insert(name, v);
+        }
+        None => {
+            m.remove(name);
+        }
+    }
+}
+
+pub fn get_override(name: &'static str) -> Option<i64> {
+    OVERRIDES.read().as_ref().and_then(|m| m.get(name).copied())
+}
+
+/// 32-bit FNV-1a, for logging a fingerprint of payloads / key material.
+pub fn hash32(data: &[u8]) -> u32 {
+    let mut h: u32 = 0x811c9dc5;
+    for b in data {
+        h ^= *b as u32;
+        h = h.wrapping_mul(0x01000193);
+    }
+    h
+}
